@@ -59,6 +59,8 @@ def count_desc(n):
 
 
 CHECK_STRINGS = [
+    # spellings of 'nobody' other than the bare '!'
+    '(!)', '! ',
     "'single':%(key)s", 'role:a or (role:b and %(a.b)s:x)', '@', '!', '',
     'rule:other and not is_admin:True',
     # longer than any line-folding width, with and without blanks to fold at
